@@ -308,6 +308,16 @@ def finish (p : Pump) : Option PErr × Option Report :=
     let (r, br) := enf.finalize
     (br.map (fun b => PErr.budget b p.lastLoc), some r)
 
+/-- the budget part of the `DocumentStart` arm of `skip_to_next_document`: `budget.begin_document_at(&raw)` when a
+budget is installed; `none` = it reported a breach -/
+def skipBudget (budget : Option Enf) (raw : Raw) : Option (Option Enf) :=
+  match budget with
+  | none => some none
+  | some enf =>
+    match enf.beginDocumentAt raw with
+    | .error _ => none
+    | .ok enf' => some (some enf')
+
 /-- `skip_to_next_document`: `true` = a new document was found -/
 def skipLoop (p : Pump) : List RawItem → Bool × Pump × List RawItem
   | [] => (false, p, [])
@@ -316,8 +326,13 @@ def skipLoop (p : Pump) : List RawItem → Bool × Pump × List RawItem
     let p := { p with lastLoc := loc }
     match raw with
     | .docStart _ =>
-      let p := { p with budget := p.budget.map Enf.beginDocument }
-      (true, { p.resetDocumentState with producedAny := false }, rest)
+      -- the skipped events bypassed the enforcer: `begin_document_at(&raw)`; a breach (only possible with
+      -- `max_events = 0`) ends the recovery like a syntax error
+      match skipBudget p.budget raw with
+      | none => (false, p, rest)
+      | some bud =>
+        let p := { p with budget := bud }
+        (true, { p.resetDocumentState with producedAny := false }, rest)
     | .docEnd => skipLoop { p.resetDocumentState with producedAny := false } rest
     | .streamEnd => (false, p, rest)
     | _ => skipLoop p rest
